@@ -669,3 +669,137 @@ func init() {
 			return obs
 		}})
 }
+
+// LOC.template-form-located — C18 ("an error inside a macro expansion points at
+// the template form that failed, and the innermost frame is that form"): a
+// quasiquote template form is rebuilt by doUnquoteSExpr as a NEW list.  The new
+// list takes the written form's position; without it the expansion stamp
+// (stampMacroExpansion) gives it the macro CALL site, so every error inside
+// the form is blamed on the call.  Structural half: each list doUnquoteSExpr
+// constructs is given `.source = <template node>.source` before it is returned.
+func init() {
+	register(&Rule{ID: "LOC.template-form-located", Floor: 1,
+		Doc: "in doUnquoteSExpr every list built for the result (an SExpr(…) construction, or a helper call, assigned to the returned local) is followed on every path to the return by an assignment of the template node's source to it: rebuilt template forms — with or without unquote-splicing — keep the position they were written at",
+		Run: func(c *Ctx) []Obligation {
+			const rid = "LOC.template-form-located"
+			fn, fd, pkg := c.LookupFunc("lisp.doUnquoteSExpr")
+			srcF := c.LookupField("lisp.LVal.source")
+			quote := c.LookupPkgFunc("lisp.Quote")
+			if fn == nil || srcF == nil {
+				return []Obligation{anchorMissing(rid, "lisp.doUnquoteSExpr / LVal.source")}
+			}
+			u := FuncUnit{fn, fd, pkg}
+			info := pkg.TypesInfo
+			fc := c.cfgOf(u, nil)
+			// the returned local: the ident of the last return statement
+			var ret types.Object
+			ast.Inspect(fd.Body, func(n ast.Node) bool {
+				if rs, ok := n.(*ast.ReturnStmt); ok && len(rs.Results) == 1 {
+					if o := identObj(info, rs.Results[0]); o != nil {
+						ret = o
+					}
+				}
+				return true
+			})
+			if ret == nil {
+				return []Obligation{mkOb(c, rid, u, "returned list", fd, Undecided, "the function does not return a local", true)}
+			}
+			var obs []Obligation
+			ord := &ordinal{}
+			for _, b := range fc.G.Blocks {
+				if !fc.Live(b) {
+					continue
+				}
+				for i, n := range b.Nodes {
+					as, ok := n.(*ast.AssignStmt)
+					if !ok || len(as.Lhs) != 1 || len(as.Rhs) != 1 || identObj(info, as.Lhs[0]) != ret {
+						continue
+					}
+					ce, ok := ast.Unparen(as.Rhs[0]).(*ast.CallExpr)
+					if !ok {
+						continue
+					}
+					if f := originOf(Callee(info, ce)); f == nil || f == quote {
+						continue // Quote copies the node (position included) or wraps it
+					}
+					construct := ord.next("list built by " + types.ExprString(ce.Fun))
+					isErrTest := func(e ast.Expr) bool { return strings.Contains(types.ExprString(e), "LError") }
+					_, bad := fc.ForwardSearch(Loc{b, i},
+						func(l Loc, m ast.Node) searchVerdict {
+							switch x := m.(type) {
+							case *ast.AssignStmt:
+								for _, lh := range x.Lhs {
+									if se, ok := ast.Unparen(lh).(*ast.SelectorExpr); ok && FieldOfSelector(info, se) == srcF && identObj(info, se.X) == ret {
+										return svStop
+									}
+									if identObj(info, lh) == ret {
+										if c2, ok := ast.Unparen(x.Rhs[0]).(*ast.CallExpr); ok && originOf(Callee(info, c2)) != quote {
+											return svStop // a new construction: checked on its own
+										}
+									}
+								}
+							case *ast.ReturnStmt:
+								if len(x.Results) == 1 && identObj(info, x.Results[0]) == ret {
+									return svBad
+								}
+							}
+							return svContinue
+						},
+						func(bb *cfg.Block, k int) bool {
+							// do not follow the edge on which the built value is an error
+							if cnd := fc.CondOf(bb); cnd != nil && isErrTest(cnd) && k == 0 {
+								return false
+							}
+							return true
+						}, nil)
+					if bad {
+						obs = append(obs, mkOb(c, rid, u, construct, as, Violated, "this list can be returned as the rebuilt template form without having been given the template node's position: the expansion stamp then assigns it the macro call site, so an error inside the form — and the innermost frame of its trace — points at the macro call instead of at the template", true))
+					} else {
+						obs = append(obs, mkOb(c, rid, u, construct, as, Proved, "given the template node's position before it is returned", true))
+					}
+				}
+			}
+			return obs
+		}})
+}
+
+// LOC.bind-errors-at-call — C18 ("the error identifies the failing form"): an
+// argument-binding failure (wrong number of arguments, unrecognized keyword,
+// odd number of keyword arguments) is a failure OF THE CALL.  Errors take their
+// position from the environment that creates them, so during binding they must
+// be created by the caller's environment — bind's own receiver — not by the
+// callee's lexical environment, whose position is the defun or lambda.
+func init() {
+	register(&Rule{ID: "LOC.bind-errors-at-call", Floor: 2,
+		Doc: "in LEnv.bind every call of an error-creating method of an environment (Errorf, ErrorConditionf, bindFormalNext — which creates the keyword and arity errors) has bind's own receiver, the calling environment, as its receiver: a rejected call is located at the call expression, in agreement with the stack trace, never at the definition of the function being called",
+		Run: func(c *Ctx) []Obligation {
+			const rid = "LOC.bind-errors-at-call"
+			fn, fd, pkg := c.LookupFunc("lisp.(*LEnv).bind")
+			if fn == nil || fd.Recv == nil || len(fd.Recv.List) == 0 || len(fd.Recv.List[0].Names) == 0 {
+				return []Obligation{anchorMissing(rid, "lisp.(*LEnv).bind")}
+			}
+			u := FuncUnit{fn, fd, pkg}
+			info := pkg.TypesInfo
+			recv := info.Defs[fd.Recv.List[0].Names[0]]
+			watched := map[string]bool{"Errorf": true, "ErrorConditionf": true, "ErrorCondition": true, "Error": true, "bindFormalNext": true}
+			var obs []Obligation
+			ord := &ordinal{}
+			for _, ce := range callsIn(fd.Body, true) {
+				se, ok := ast.Unparen(ce.Fun).(*ast.SelectorExpr)
+				if !ok || !watched[se.Sel.Name] {
+					continue
+				}
+				tv, ok := info.Types[se.X]
+				if !ok || !strings.HasSuffix(tv.Type.String(), "lisp.LEnv") {
+					continue
+				}
+				construct := ord.next(types.ExprString(se.X) + "." + se.Sel.Name)
+				if identObj(info, se.X) == recv {
+					obs = append(obs, mkOb(c, rid, u, construct, ce, Proved, "created by the calling environment", true))
+				} else {
+					obs = append(obs, mkOb(c, rid, u, construct, ce, Violated, "a binding error is created by `"+types.ExprString(se.X)+"`, not by the calling environment: for a user-defined function that environment's position is the defun/lambda, so `unrecognized keyword argument` and the other keyword rejections are reported at the function's definition while the stack trace still shows the call — location and trace disagree", true))
+				}
+			}
+			return obs
+		}})
+}
